@@ -315,6 +315,110 @@ async fn c32_enable_after_data(ctx: Ctx) {
     }
 }
 
+/// "A StatusCondition's trigger value is true exactly when one of its enabled statuses has changed since last read", for the
+/// conditions of every entity kind: false before the event, true after it, false again after the status was read (for
+/// data: after the data was taken), and then a wait() on it does not return
+async fn c32_trigger(ctx: Ctx, which: usize) {
+    use dust_dds::dds_async::wait_set::{ConditionAsync, WaitSetAsync};
+    let f = ctx.factory("", None);
+    let n1 = node::<KeyedData>(&f, 0, "T").await;
+    let n2 = node::<KeyedData>(&f, 0, "T").await;
+    let names = ["subscriber/DataOnReaders", "reader/DataAvailable", "reader/SubscriptionMatched", "writer/PublicationMatched", "writer/OfferedDeadlineMissed", "topic/InconsistentTopic"];
+    let name = names[which];
+    let mut wq = reliable_w(HistoryQosPolicyKind::KeepAll, Some(100));
+    if which == 4 {
+        wq.deadline.period = DurationKind::Finite(Duration::new(0, 300_000_000));
+    }
+    // the entities whose conditions are observed exist before the event; the conditions are restricted to the one status
+    let w = n1.publisher.create_datawriter::<KeyedData>(&n1.topic, QosKind::Specific(wq), NO_LISTENER, NO_STATUS).await.expect("w");
+    let (cond, status) = match which {
+        0 => (n2.subscriber.get_statuscondition(), StatusKind::DataOnReaders),
+        3 => (w.get_statuscondition(), StatusKind::PublicationMatched),
+        4 => (w.get_statuscondition(), StatusKind::OfferedDeadlineMissed),
+        5 => (n1.topic.get_statuscondition(), StatusKind::InconsistentTopic),
+        _ => (n2.subscriber.get_statuscondition(), StatusKind::DataOnReaders), // replaced below for the reader cases
+    };
+    let r = n2.subscriber.create_datareader::<KeyedData>(&n2.topic, QosKind::Specific(reliable_r(HistoryQosPolicyKind::KeepAll)), NO_LISTENER, NO_STATUS).await.expect("r");
+    let (cond, status) = match which {
+        1 => (r.get_statuscondition(), StatusKind::DataAvailable),
+        2 => (r.get_statuscondition(), StatusKind::SubscriptionMatched),
+        _ => (cond, status),
+    };
+    cond.set_enabled_statuses(&[status]).await.expect("mask");
+    let trig = |c: &dust_dds::dds_async::condition::StatusConditionAsync| {
+        let c = c.clone();
+        async move { c.get_trigger_value().await.unwrap_or(false) }
+    };
+    // events: matching happens by itself; data / deadline / inconsistent topic are provoked
+    match which {
+        0 | 1 => {
+            wait_pub_matched(&ctx, &w, 1, 3000).await;
+            if trig(&cond).await {
+                ctx.violation(format!("trigger/{name}/true-before-any-change"), "trigger value true although nothing happened");
+                return;
+            }
+            w.write(sample(1, 0, 8), None).await.expect("write");
+        }
+        4 => {
+            w.write(sample(1, 0, 8), None).await.expect("write");
+        }
+        5 => {
+            // a remote reader on the same topic name with another type
+            let p3 = f.create_participant(0, QosKind::Default, NO_LISTENER, NO_STATUS).await.expect("p3");
+            let t3 = p3.create_topic::<FilterData>("T", "Other", QosKind::Default, NO_LISTENER, NO_STATUS).await.expect("t3");
+            let s3 = p3.create_subscriber(QosKind::Default, NO_LISTENER, NO_STATUS).await.expect("s3");
+            let r3 = s3.create_datareader::<FilterData>(&t3, QosKind::Specific(reliable_r(HistoryQosPolicyKind::KeepAll)), NO_LISTENER, NO_STATUS).await.expect("r3");
+            ctx.sleep_ms(500).await;
+            // the remote reader goes away again so that the status stops changing
+            s3.delete_datareader(&r3).await.expect("delete r3");
+            let _ = p3.delete_contained_entities().await;
+            let _ = f.delete_participant(&p3).await;
+        }
+        _ => {}
+    }
+    ctx.sleep_ms(500).await;
+    if !trig(&cond).await {
+        ctx.violation(format!("trigger/{name}/false-after-change"), "the status changed 500 ms ago and is enabled: trigger value is false");
+        return;
+    }
+    // read the status (take the data)
+    match which {
+        0 | 1 => {
+            let _ = take_all(&r).await;
+        }
+        2 => {
+            let _ = r.get_subscription_matched_status().await;
+        }
+        3 => {
+            let _ = w.get_publication_matched_status().await;
+        }
+        4 => {
+            // keep the instance alive so that no further period is missed, then read
+            w.write(sample(1, 1, 8), None).await.expect("write2");
+            let _ = w.get_offered_deadline_missed_status().await;
+        }
+        _ => {
+            ctx.sleep_ms(300).await;
+            let _ = n1.topic.get_inconsistent_topic_status().await;
+        }
+    }
+    if trig(&cond).await {
+        ctx.violation(format!("trigger/{name}/true-after-read"), "the changed status was read (the data was taken) and nothing changed since: trigger value is still true");
+    }
+    let mut ws = WaitSetAsync::new();
+    ws.attach_condition(ConditionAsync::StatusCondition(cond.clone())).await.expect("attach");
+    let woke = Arc::new(Mutex::new(false));
+    let wk = woke.clone();
+    ctx.spawn(async move {
+        let _ = ws.wait().await;
+        *wk.lock().unwrap() = true;
+    });
+    ctx.sleep_ms(100).await;
+    if *woke.lock().unwrap() {
+        ctx.violation(format!("trigger/{name}/wait-returns-without-change"), "after the status was read, a wait() on the condition returns at once (a wait loop spins)");
+    }
+}
+
 // ---- C33 -----------------------------------------------------------------------------------------------------------
 struct MatchLog(Arc<Mutex<Vec<(i32, i32)>>>);
 impl dust_dds::dds_async::data_reader_listener::DataReaderListener<KeyedData> for MatchLog {
@@ -940,7 +1044,12 @@ pub fn extra(id: &str) -> Vec<Scenario> {
             }
         }
         "C30" => add("old-ts".into(), Scenario::new("C30.audit[old-source-timestamp]".to_string(), 0, c30_old_timestamp)),
-        "C32" => add("enable".into(), Scenario::new("C32.audit[enabled-after-status-change]".to_string(), 0, c32_enable_after_data)),
+        "C32" => {
+            add("enable".into(), Scenario::new("C32.audit[enabled-after-status-change]".to_string(), 0, c32_enable_after_data));
+            for (k, n) in ["subscriber-DataOnReaders", "reader-DataAvailable", "reader-SubscriptionMatched", "writer-PublicationMatched", "writer-OfferedDeadlineMissed", "topic-InconsistentTopic"].iter().enumerate() {
+                add("trigger".into(), Scenario::new(format!("C32.audit[trigger,{n}]"), 0, move |ctx| c32_trigger(ctx, k)));
+            }
+        }
         "C33" => {
             add("wchain".into(), Scenario::new("C33.audit[writer-side-chain]".to_string(), 99, c33_writer_chain));
             for lw in [true, false] {
